@@ -7,14 +7,24 @@ import gffutils
 from gv.model import dbutil, grammar as G
 
 ID = "C15"
-RULE = ("part 'lists': every ordered list of 1..3 features (interval over positions 1..5 (quick: 1..4 for 3-lists) x seqid {c1,c2} x strand {+,-}; 1- and 2-lists also across the first bin boundary and with always_return_list off) x 4 option settings "
-        "(new_featuretype, merge_attributes, numeric_sort, update_attributes) through the real interfeatures; part 'introns': every transcript "
-        "pair (1..3 exons with distinct starts over positions 1..6/1..8, either strand) through create_introns (grandparent and parent "
-        "selection) and create_splice_sites. Non-trivial = some consecutive pair touches/overlaps/changes seqid/differs in strand while "
-        "another has a gap (lists); a transcript has >= 2 exons (introns)")
+RULE = (
+    "Part 'lists' (shards = length x first feature x 4 option settings): every ordered list of 1..3 features, each an interval over "
+    "positions 1..5 (quick; 3-lists 1..4) / 1..6 (thorough) x seqid {c1,c2} x strand {+,-} (60 / 84 kinds); 1- and 2-lists also shifted "
+    "across the first bin boundary, with always_return_list off, and with identical attributes on all features. The real "
+    "interfeatures() output is compared with a reference (count, seqid, coordinates, featuretype, strand, merged attributes), each "
+    "interfeature's bin must equal bins(); inputs unchanged; on sampled executions the database is unchanged. Part 'empty': list, "
+    "tuple, exhausted generator and a query without hits x 4 settings yield nothing and do not raise. Part 'introns' (shards = blocks "
+    "of exon sets): first transcript = every set of 1..3 exons with distinct starts over positions 1..6 (quick) / 1..8 (thorough; also "
+    "4 exons over 1..6), 931 / 6742 sets; second transcript = 3 representative sets; x strand x exon line order x always_return_list; a "
+    "third transcript has only a CDS. create_introns (both selections, attributes, columns) and create_splice_sites (positions, labels, "
+    "distinct prefixed ids) are compared with the reference; database unchanged; after update() adds a gene both calls are re-checked. "
+    "Non-trivial = some consecutive pair touches/overlaps/changes seqid/differs in strand while another has a gap (lists); the first "
+    "transcript has >= 2 exons (introns); every empty execution."
+)
 ASSUMPTIONS = [
     "exons of one transcript have distinct starts (order among equal starts is unspecified)",
     "score/frame/source/id of a derived interfeature are not demanded",
+    "introns part: the first transcript ranges over every exon set, the second over three representative sets (first, middle, last)",
 ]
 
 SETTINGS = [
